@@ -38,8 +38,9 @@ def _run_one(args):
         opts['seed'] = seed
         opts['tier'] = tier
         opts['active_findings'] = _ACTIVE
-        if budget:
-            opts['deadline'] = time.time() + budget
+        # wall-clock budget per obligation: a check that cannot decide in time is inconclusive (exit 2), never open-ended
+        budget = budget or int(os.environ.get('VERIF_OBLIGATION_BUDGET_S', '0') or 0) or (900 if tier == 'quick' else 5400)
+        opts['deadline'] = time.time() + budget
         if tier == 'thorough':
             opts.setdefault('check_timeout_ms', 600000)
             opts['fork_timeout_ms'] = opts.get('fork_timeout_ms', 10000) * 3
